@@ -863,6 +863,11 @@ func (n *AlertNode) restoreEvent(id string) (alert.Level, time.Time) {
 			if err := n.et.tm.AlertService.UpdateEvent(n.anonTopic, topicState); err != nil {
 				n.diag.Error("failed to update topic event state", err, keyvalue.KV("topic", n.topic), keyvalue.KV("event", id))
 			}
+		} else if anonFound && n.hasTopic() {
+			// Found on the anon topic only, update event state for topic
+			if err := n.et.tm.AlertService.UpdateEvent(n.topic, anonTopicState); err != nil {
+				n.diag.Error("failed to update topic event state", err, keyvalue.KV("topic", n.topic), keyvalue.KV("event", id))
+			}
 		} // else nothing was found, nothing to do
 	}
 	if anonFound {
